@@ -10,9 +10,8 @@ const maxInt64 = math.MaxInt64
 const minInt64 = math.MinInt64
 
 func init() {
-	// BITOP on string values (the bit-exact semantics of the other bitmap
-	// commands are C18's subject and not modelled; BITOP is here because it is
-	// a multi-key read-modify-write command that C08 names)
+	// BITOP on string values (it is a multi-key read-modify-write command that
+	// C08 names; the other bitmap commands are in model_bits.go)
 	reg("bitop", -4, true, func(m *Model, s *Sess, a []string, _ bool) Expect {
 		op := upper(a[1])
 		dest, srcs := a[2], a[3:]
